@@ -316,6 +316,8 @@ impl<'a> GeneratorState<'a> {
                 }
             }
             if self.acc_in_use { self.sasm(PLA)?; }
+            // The shifts and rotates (and PLA) have changed N and Z
+            self.flags = FlagsState::Unknown;
             self.carry_flag_ok = false;
             Ok(ExprType::Nothing)
         } else {
